@@ -393,4 +393,12 @@ def _c06r1(ctx):
     return r(ctx)
 
 
-RULES = [("C06-R8", _c06r8), ("C06-R1", _c06r1), ("C08-R1", rule_r1), ("C08-R2", rule_r2), ("C08-R3", rule_r3), ("C08-R4", rule_r4), ("C08-R5", rule_r5)]
+def _c07r4(ctx):
+    """A sub-expression that a statement template drops on some path is never handed to the rewriter
+    either, so an unsupported construct inside it is accepted (shared rule C07-R4)."""
+    from .c07 import rule_r4 as r
+
+    return r(ctx)
+
+
+RULES = [("C06-R8", _c06r8), ("C06-R1", _c06r1), ("C07-R4", _c07r4), ("C08-R1", rule_r1), ("C08-R2", rule_r2), ("C08-R3", rule_r3), ("C08-R4", rule_r4), ("C08-R5", rule_r5)]
